@@ -87,13 +87,24 @@ def check_string(ctx: Ctx, stream: str, i: int, subs: str, rng, force=None) -> N
         if len(bshape) >= 2:
             blocks = np.array([rng.randint(-2, 3) for _ in range(int(np.prod(bshape)))], dtype=np.float64).reshape(bshape)
             x = np.array([rng.randint(-2, 3) for _ in range(int(np.prod(xshape)))], dtype=np.float64).reshape(xshape)
-            cfg = {**cfg, 'blocks_shape': bshape, 'leaf_shape': xshape}
+            # dtypes: the blocks may be WIDER than the leaf (fractional blocks on an integer leaf, complex blocks on a
+            # real leaf): the operator applies einsum with the blocks it was given
+            dmode = rng.choice(['same', 'same', 'float-blocks-int-leaf', 'complex-blocks-real-leaf', 'int-blocks-float-leaf'])
+            bdt, xdt = jnp.float32, jnp.float32
+            if dmode == 'float-blocks-int-leaf':
+                blocks = blocks + 0.5
+                xdt = jnp.int32
+            elif dmode == 'complex-blocks-real-leaf':
+                blocks = blocks + 1j * np.roll(blocks, 1).reshape(bshape)
+                bdt = jnp.complex64
+            elif dmode == 'int-blocks-float-leaf':
+                bdt = jnp.int32
+            cfg = {**cfg, 'blocks_shape': bshape, 'leaf_shape': xshape, 'dtypes': dmode}
             stn, want = safe(np.einsum, subs, blocks, x)
-            sto, op = safe(lambda: Dense(jnp.asarray(blocks, dtype=jnp.float32),
-                                         jax.ShapeDtypeStruct(xshape, jnp.float32), subs))
+            sto, op = safe(lambda: Dense(jnp.asarray(blocks, dtype=bdt), jax.ShapeDtypeStruct(xshape, xdt), subs))
             if stn == 'ok' and sto == 'ok':
-                stm, y = safe(op.mv, jnp.asarray(x, dtype=jnp.float32))
-                if stm != 'ok' or np.asarray(y).shape != want.shape or not np.array_equal(np.asarray(y), want):
+                stm, y = safe(op.mv, jnp.asarray(x, dtype=xdt))
+                if stm != 'ok' or np.asarray(y).shape != want.shape or not np.allclose(np.asarray(y), want, rtol=1e-6, atol=1e-6):
                     ctx.fail(stream, i, 'einsum-mv-wrong', f'{subs!r}: op.mv differs from numpy.einsum ({stm})', cfg)
                 elif accepted:
                     stt, opt = safe(lambda: op.T)
@@ -105,6 +116,8 @@ def check_string(ctx: Ctx, stream: str, i: int, subs: str, rng, force=None) -> N
                         if stt2 != 'ok':
                             ctx.fail(stream, i, f'einsum-transpose-mv-raises:{stt2}',
                                      f'{subs!r}: transposed operator {got!r} cannot be applied: {str(mt)[:120]}', cfg)
+                        elif dmode not in ('same', 'int-blocks-float-leaf'):
+                            pass       # (the dense-matrix helper works in real float arithmetic)
                         elif mt.shape != m.T.shape or not np.array_equal(mt, m.T):
                             rep_letters = len(set(L.replace('...', ''))) < len(L.replace('...', ''))
                             ctx.fail(stream, i, 'einsum-transpose-not-adjoint' + (':repeated-letter' if rep_letters else ''),
